@@ -44,7 +44,7 @@ def assignment_of(f, ev):
 
 def analyse(ctx, replace=None, only=None):
     R = ctx.R
-    P = ctx.program([FILE], "ship", replace=replace)
+    P = ctx.program([FILE, "source/allocator.c"], "ship", replace=replace)
     fns = {f.name: f for f in P.functions_in("allocator_sba.c")}
     need = ["s_sba_alloc_from_bin", "s_sba_free_to_bin", "s_sba_alloc", "s_sba_free", "s_page_bind", "s_sba_clean_up", "s_sba_init", "s_sba_mem_realloc", "s_sba_mem_calloc",
             "aws_small_block_allocator_bytes_active", "aws_small_block_allocator_bytes_reserved", "s_sba_find_bin"]
@@ -58,6 +58,7 @@ def analyse(ctx, replace=None, only=None):
     page_release(R, fns, P)
     classify(R, P, fns)
     metrics(R, P, fns)
+    emulated_realloc(R, P)
     realloc_calloc(R, fns)
     destroy(R, fns)
 
@@ -326,6 +327,58 @@ def erase_before_free(R, fns):
     R.require(sites >= 3, "only %d page release sites found (confirmed: free path, destroy x2)" % sites)
 
 
+def emulated_realloc(R, P):
+    """REALLOC/emulation: when the parent has no mem_realloc, aws_mem_realloc copies into a fresh block of `newsize` bytes:
+    every memcpy / memset into that block stays inside it for all old and new sizes (NUM) - the small block allocator sends
+    every realloc between two large sizes through this path"""
+    from sa.num import Num, Poly, Limit, entails
+    from sa.awslib import AwsHooks, in_bounds
+    from sa.bounds import access_sites, addr_size
+    f = P.fn("aws_mem_realloc")
+    if not R.require(f is not None, "aws_mem_realloc not found (source/allocator.c not analysed)"):
+        return
+    R.fn(f)
+
+    class H(AwsHooks):
+        def call(self, num, st, e, args):
+            if e.get("callee") is None:
+                via = RU.indirect_via(num.fn, e)
+                if via and via[1] in ("mem_acquire", "mem_realloc", "mem_calloc"):
+                    a = num.fresh(st, "newblock", None, (1, 2 ** 62))
+                    if args and args[-1] is not None:
+                        st.extent[a] = args[-1]
+                    return Poly.atom(a)
+                if via and via[1] == "mem_release":
+                    return None
+            if (e.get("callee") or "") in ("aws_mem_release", "aws_fatal_assert", "aws_raise_error_private"):
+                return None if e.get("callee") != "aws_raise_error_private" else Poly.const(-1)
+            return AwsHooks.call(self, num, st, e, args)
+    num = Num(f, P, H(), max_paths=4000)
+    sites = [s for s in access_sites(f) if s[1] == "mem"]
+    try:
+        sts = num.states_at({s[0] for s in sites})
+    except Limit as ex:
+        R.broken(str(ex))
+        return
+    n = 0
+    for eid, kind, nd in sites:
+        ok, det, cnt = True, "", 0
+        for st in sts.get(eid, []):
+            s2 = st.copy()
+            for (D, sz, mode) in addr_size(num, s2, kind, nd):
+                if mode != "w":
+                    continue
+                cnt += 1
+                r = in_bounds(s2, D, sz)
+                if r[0] != "ok":
+                    ok, det = False, r[1]
+        if cnt:
+            n += 1
+            R.check(ok, "REALLOC", "emulated:%s-inside-the-new-block:line%d" % (nd["callee"], nd.get("loc", [0])[0]), where(f, nd), "the write stays inside the freshly acquired block (%d states)" % cnt,
+                    "aws_mem_realloc's emulation writes past the block it just acquired (%s): a shrinking realloc through an allocator without mem_realloc overwrites the neighbouring blocks" % det)
+    R.require(n >= 2, "aws_mem_realloc: only %d writes into the new block analysed" % n)
+
+
 def metrics(R, P, fns):
     """METRICS: the active byte count is the sum, over every page of every bin - the pages on the active list and the
     working page - of that page's live-block count times the bin's size class."""
@@ -474,6 +527,15 @@ def destroy(R, fns):
         if any("page_cursor" in g for g in gs):
             gcur = True
     R.check(gcur, "DESTROY", "working-page-freed-when-set", "%s()" % f.name, "working page released when the cursor is set")
+    # destroy returns every page: a release depends on nothing but `there is a working page` and the two loops
+    for e in frees:
+        extra = []
+        for c_, p_, b_ in RU.guards(f, e):
+            names = {x.get("f") for x in f.walk(f.d(c_), follow_refs=True) if x["k"] == "member"}
+            if names & {"alloc_count", "tag", "tag2", "bin"}:
+                extra.append(f.show(f.d(c_))[:50])
+        R.check(not extra, "DESTROY", "page-release-unconditional:line%d" % e.node.get("loc", [0])[0], where(f, e), "the page is released whatever its live-block count",
+                "destroy releases this page only when %s: pages for which the test fails are never returned to the system (leak at destroy)" % extra)
     for callee, fld in (("aws_array_list_clean_up", "active_pages"), ("aws_array_list_clean_up", "free_chunks"), ("aws_mutex_clean_up", "mutex")):
         ok = any((RU.strip_addr(f, RU.arg(f, e.node, 0)) or {}).get("f") == fld for e in f.calls(callee))
         R.check(ok, "DESTROY", "cleans:%s" % fld, "%s()" % f.name, "%s cleaned up" % fld)
@@ -485,6 +547,8 @@ def destroy(R, fns):
 
 
 MUTANTS = [
+    {"name": "destroy-keeps-the-working-page", "file": FILE, "expect": "DESTROY", "old": "            AWS_ASSERT(page->alloc_count == 0 && \"Memory still allocated in aws_sba_allocator (page)\");\n            s_page_release(page);", "new": "            if (page->alloc_count) {\n                s_page_release(page);\n            }"},
+    {"name": "emulated-realloc-copies-old-size-on-shrink", "file": "source/allocator.c", "expect": "REALLOC", "old": "    if (oldsize >= newsize) {\n        return AWS_OP_SUCCESS;\n    }\n\n    void *newptr = allocator->mem_acquire(allocator, newsize);", "new": "    if (oldsize == newsize) {\n        return AWS_OP_SUCCESS;\n    }\n\n    void *newptr = allocator->mem_acquire(allocator, newsize);"},
     {"name": "page-header-erased-with-plain-stores", "file": FILE, "expect": "PAGE-RELEASE", "old": "    aws_secure_zero(page, sizeof(struct page_header));\n    s_aligned_free(page);", "new": "    page->tag = page->tag2 = 0;\n    s_aligned_free(page);"},
     {"name": "purge-window-ends-before-the-last-chunk", "file": FILE, "expect": "PAGE-RELEASE", "old": "        uint8_t *page_end = page_start + AWS_SBA_PAGE_SIZE;", "new": "        uint8_t *page_end = (uint8_t *)page + aws_small_block_allocator_page_size_available(NULL);"},
     {"name": "active-pages-counted-as-full", "file": FILE, "expect": "PAGE-RELEASE", "old": "            struct page_header *page = page_addr;\n            used += page->alloc_count * bin->size;\n        }\n        if (bin->page_cursor) {", "new": "            struct page_header *page = page_addr;\n            (void)page;\n            used += ((AWS_SBA_PAGE_SIZE - sizeof(struct page_header)) / bin->size) * bin->size;\n        }\n        if (bin->page_cursor) {"},
@@ -494,7 +558,6 @@ MUTANTS = [
      "old": "        struct page_header *page = s_page_base(chunk);\n        page->alloc_count++;\n        return chunk;", "new": "        return chunk;"},
     {"name": "release-working-page", "file": FILE, "expect": "PAGE-RELEASE",
      "old": "if (page->alloc_count == 0 && page != s_page_base(bin->page_cursor)) {", "new": "if (page->alloc_count == 0) {"},
-    {"name": "tag2-not-erased", "file": FILE, "expect": "PAGE-RELEASE", "old": "        page->tag = page->tag2 = 0;", "new": "        page->tag = 0;"},
     {"name": "single-tag-check", "file": FILE, "expect": "CLASSIFY",
      "old": "if (page->tag == AWS_SBA_TAG_VALUE && page->tag2 == AWS_SBA_TAG_VALUE) {", "new": "if (page->tag == AWS_SBA_TAG_VALUE) {"},
     {"name": "realloc-copy-unguarded", "file": FILE, "expect": "REALLOC",
